@@ -295,6 +295,8 @@ def build_env(case, tmp):
     if src == "xy":
         X = [dec(x) for x, _ in case["rows"]]
         Y = [dec(y) for _, y in case["rows"]]
+        if case.get("xy_as"):
+            X, Y = hand_over(X, case["xy_as"][0]), hand_over(Y, case["xy_as"][1])
         if case.get("kw"):
             return ctor(X, Y, label_type=lt) if lt is not None or case.get("explicit_none") else ctor(X, Y)
         return ctor(X, Y, lt) if lt is not None or case.get("explicit_none") else ctor(X, Y)
@@ -338,6 +340,23 @@ def build_env(case, tmp):
             kw["take"] = take
         return ctor(**kw)
     return ctor(source, lc, lt, take)
+
+
+def hand_over(seq, how):
+    """the examples handed to SupervisedSimulation(X, Y) as a list, a tuple, or a one-shot iterable (generator expression,
+    map object, list iterator): the simulation is the examples' bandit form on every read, however they were handed over"""
+    if how == "tuple":
+        return tuple(seq)
+    if how == "gen":
+        return (v for v in seq)
+    if how == "map":
+        return map(lambda v: v, seq)
+    if how == "iter":
+        return iter(seq)
+    return list(seq)
+
+
+ONE_SHOT = ("gen", "map", "iter")
 
 
 def access_keys(case):
@@ -486,6 +505,18 @@ def run_impl(case, probes, reads=2):
         except Exception as e:
             return [{"err": "ctor:" + ename(e)}] * reads
         keys = access_keys(case)
+        if case.get("abandon"):
+            # a history: a first read that is abandoned after `abandon` interactions (a consumer that only peeks, or stops
+            # early); the reads observed afterwards must still be the examples' bandit form
+            try:
+                it = iter(env.read())
+                for _ in range(case["abandon"]):
+                    next(it, None)
+                if hasattr(it, "close"):
+                    it.close()
+                del it
+            except Exception:
+                pass
         return [observe(env, probes, keys) for _ in range(reads)]
     finally:
         if tmp:
@@ -636,7 +667,12 @@ def monitor(obs, exp, probes, case, readno, who="impl"):
     ints = obs["ints"]
     n = exp["n"]
     if len(ints) != n:
-        if src == "xy" and readno == 1 and len(ints) == 0 and n > 0:
+        if src == "xy" and (case.get("abandon") or any(h in ONE_SHOT for h in case.get("xy_as") or [])) and (readno == 1 or case.get("abandon")):
+            fail("xy-reread-length:%s" % ("after-abandoned-read" if case.get("abandon") and readno == 0 else "later-read"),
+                 "SupervisedSimulation(X,Y) with X,Y handed over as %s yields %d interactions for %d examples on read #%d%s"
+                 % (case.get("xy_as") or "lists", len(ints), n, readno + 1 + (1 if case.get("abandon") else 0),
+                    " (the first read was abandoned after %d interaction(s))" % case["abandon"] if case.get("abandon") else ""), ["all"])
+        elif src == "xy" and readno == 1 and len(ints) == 0 and n > 0:
             fail("xy-second-read-empty", "SupervisedSimulation(X,Y) yields %d interactions on the first read and 0 on the second" % n, ["all"])
         else:
             fail("length%s" % (":take" if case.get("take") is not None else ""),
@@ -856,24 +892,31 @@ def reservoir_request(k, n):
 
 
 def text_request(case, probes, req):
-    """the model reads the text itself (C12 reader model) when the case is inside what those models cover"""
+    """the model reads the text itself (C12 reader model) when the case is inside what those models cover; with take the
+    model also samples the reader's rows itself (C09 reservoir) before LabelRows / read"""
     src = case["src"]
-    if case.get("take") is not None or case.get("pre") is not None:
+    if case.get("pre") is not None:
         return None
+    take = case.get("take")
     lc = case.get("label_col")
     label = {"name": lc} if isinstance(lc, str) else {"i": lc}
+    res = {"res": reservoir_request(take, len(case["rows"]))} if take is not None else {}
     if src == "csv":
         delim = (case.get("dialect") or {}).get("delimiter", ",")
         lines = csv_text(case)
         if case.get("eol"):
             lines = [l + case["eol"] for l in lines]
-        return dict(req, op="csv_text", lines=lines, delim=ord(delim), header=bool(case.get("header")), label=label)
+        return dict(req, op="csv_text" if take is None else "csv_take", lines=lines, delim=ord(delim), header=bool(case.get("header")), label=label, **res)
     if src in ("libsvm", "manik"):
-        return dict(req, op="svm_text", lines=libsvm_text(case), manik=src == "manik")
-    if src == "arff":
+        return dict(req, op="svm_text" if take is None else "svm_take", lines=libsvm_text(case), manik=src == "manik", **res)
+    if src == "arff" and take is None and len(json.dumps(case, sort_keys=True)) % 2 == 0:
+        # the reader's simple path with header lines and data lines handed over separately (phase 2)
         lines = arff_text(case)
         k = lines.index("@data")
         return dict(req, op="arff_text", attr_lines=[l for l in lines[:k] if l.startswith("@attribute")], data_lines=lines[k + 1:], label=label)
+    if src in ("arff", "sarff"):
+        # the whole file (relation line, attribute lines, @data, dense or sparse data lines) through C12's arffRead
+        return dict(req, op="arff_file", lines=arff_text(case), label=label, **res)
     return None
 
 
@@ -927,13 +970,15 @@ def model_obs(ans, op):
     m = ans["model"]
     if "err" in m:
         return {"err": m["err"]}
+    if op == "arff_file":
+        op = "dense" if ans.get("shape") == "dense" else "sparse"
     out = []
     for it in m["ints"]:
         if op == "pairs":
             ctx = it["context"]
-        elif op == "svm_text":
+        elif op in ("svm_text", "svm_take"):
             ctx = ["D", sorted(([canon(int(k)), canon(float(v))] for k, v in it["context"]), key=lambda p: json.dumps(p[0]))]
-        elif op in ("dense", "csv_text", "arff_text"):
+        elif op in ("dense", "csv_text", "arff_text", "csv_take"):
             ctx = ["L", [from_label(c) for c in it["context"]]]
         else:
             ctx = ["D", sorted(([from_val(k), from_label(v)] for k, v in it["context"]), key=lambda p: json.dumps(p[0]))]
@@ -1189,6 +1234,15 @@ class Gen:
         if lt is None and r.chance(0.3):
             case["explicit_none"] = True
         case["rows"] = [[x, y] for x, y in zip(X, Y)]
+        if r.chance(0.35):
+            # how the examples are handed over (list / tuple / one-shot iterable) and a history: a first read abandoned early
+            hows = ["list", "tuple", "gen", "map", "iter"]
+            case["xy_as"] = r.choice([["gen", "gen"], ["map", "gen"], ["list", "iter"], ["map", "list"], ["iter", "iter"], ["tuple", "tuple"],
+                                      [r.choice(hows), r.choice(hows)]])
+            if r.chance(0.5):
+                case["abandon"] = r.choice([1, 1, 1, 2, max(1, n)])
+        elif r.chance(0.1):
+            case["abandon"] = 1
         return case
 
     def edge(self, tier):
@@ -1481,6 +1535,9 @@ def snippet_for(case):
     if src == "xy":
         lines.append("X = %r" % ([dec(x) for x, _ in case["rows"]],))
         lines.append("Y = %r" % ([dec(y) for _, y in case["rows"]],))
+        forms = {"tuple": "tuple(%s)", "gen": "(v for v in %s)", "map": "map(lambda v: v, %s)", "iter": "iter(%s)", "list": "%s"}
+        if case.get("xy_as"):
+            lines.append("X, Y = %s, %s   # how the examples are handed over" % (forms[case["xy_as"][0]] % "X", forms[case["xy_as"][1]] % "Y"))
         args = "X, Y" + ((", label_type=%r" if case.get("kw") else ", %r") % lt if lt is not None or case.get("explicit_none") else "")
     else:
         if src == "rows":
@@ -1510,6 +1567,8 @@ def snippet_for(case):
         else:
             args = "source, %r, %r, %r" % (lc, lt, case.get("take"))
     lines.append("env = %s(%s)%s" % (ctor, args, tail))
+    if case.get("abandon"):
+        lines += ["it = iter(env.read())", "for _ in range(%d): next(it, None)   # a first read, abandoned early" % case["abandon"], "it.close(); del it"]
     lines += ["for k in range(2):",
               "    ints = list(env.read())",
               "    print('read', k, len(ints), 'interactions')",
@@ -1551,11 +1610,12 @@ class C14(Property):
             "labels string / int / float / bool / Categorical / one-element list / label sets, label_type given (c C r R m M) or inferred, label column by "
             "index (also negative) or header, take absent or around n, via SupervisedSimulation or Environments.from_supervised, positional or keyword; "
             "CSV with tab delimiter / edge white space / empty edge fields / kept line terminators; already labelled sources (rows carrying their own tipe) with an explicit label_type that agrees, differs or is absent; "
-            "text sources without take are parsed by the model itself (C12 reader models), take is sampled by the model itself (C09 reservoir); "
+            "text sources with and without take are parsed by the model itself (C12 reader models: CSV, LibSVM, Manik, whole-file dense and sparse ARFF through arffRead), take is sampled by the model itself (C09 reservoir) between reader and LabelRows; "
+            "(X,Y) handed over as lists, tuples or one-shot iterables (generator, map, iterator), optionally after a first read that was abandoned after 1..n interactions; "
             "7% of the cases lie outside the quantifier (duplicate label lists, mixed label kinds, repeated CSV header names ...) and are only compared with the model; "
             "non-trivial = at least 2 examples after selection and at least 2 distinct labels (classification / multi-label) or 2 distinct targets (regression)")
     trusted_base = [
-        "text sources without take: the model reads the text itself with C12's reader models (csvSim, libsvmSim, manikSim, arffDenseSim: header lines and data lines handed over separately, simple path); sparse ARFF and text sources with take: the model receives the table the harness wrote, so reader + LabelRows + read are jointly compared with the model",
+        "text sources: the model reads the text itself with C12's reader models, without take (csvSim, libsvmSim, manikSim, arffDenseSim for half of the dense ARFF cases) and with take (csvSimT, libsvmSimT, manikSimT: reader, then the C09 reservoir, then LabelRows/read); dense ARFF (other half, and all with take) and sparse ARFF go as whole files through C12.arffRead (arffFileSim); only already labelled sources (pre) still hand the model the table the harness wrote",
         "take: the model runs C09's reservoir (Algorithm L, seed 1) itself; only the float quantities (skip count, slot) of its loop iterations are recomputed by the harness with the code's formulas from the LCG uniforms (as in C09) and handed in; the statement-level monitor (B) takes the sample positions from coba's own Reservoir",
         "the lazy context object (C13's DRow model: plain list / HeadDense under LabelDense.feats = DropOne) is evaluated by the driver for list-backed tables (CSV, ListSource rows) without take and compared on iteration, len, ctx[j], ctx[name]; ARFF rows (LazyDense) and sparse rows are compared through the C14-level featureByName / context checks only",
         "action order: (A) compares action lists as multisets; that the order is fixed is decided by (B) (same list in every interaction, on both reads, for reversed and shuffled examples, and - 2% of the cases - in a fresh interpreter with another hash seed); agreement with the modelled order (ascending / declared levels) is counted in the tag action-order:as-modelled",
@@ -1569,7 +1629,9 @@ class C14(Property):
         "'the distinct labels of the data' of a simulation with take are read as the labels of the sampled examples (the simulation's own examples): that is what the code computes and what take_sample_spec states",
         "regression from CSV / LibSVM / Manik text is not generated: these readers deliver labels as strings / lists of strings",
     ]
-    partial_theorems = {"Coba.C14.end_to_end_arff_dense": "carries C12's forced hypotheses (AttrW.ok: C12-F8/F9, arffRowOk: C12-F11) and covers the reader's simple path with header lines and data lines given separately; sparse ARFF has no end-to-end theorem (C12 proves the sparse round trip per row only)",
+    partial_theorems = {"Coba.C14.end_to_end_arff_file_sparse_under": "sparse whole-file ARFF is proved under the named hypothesis SparseFileRoundTrip (what C12.arffRead returns for the file): C12 has the sparse round trip per data line only; the hypothesis is shown satisfiable on a concrete file and the pipeline is compared with the real reader on every generated sparse file",
+                        "Coba.C14.end_to_end_arff_file_dense": "carries the hypotheses of C12's arff_dense_table_roundtrip (forced by C12-F8/F9/F11/F12/F13/F15/F17)",
+                        "Coba.C14.end_to_end_arff_dense": "carries C12's forced hypotheses (AttrW.ok: C12-F8/F9, arffRowOk: C12-F11) and covers the reader's simple path with header lines and data lines given separately; sparse ARFF has no end-to-end theorem (C12 proves the sparse round trip per row only)",
                         "Coba.C14.end_to_end_arff_dense_xy_partial": "ARFF = (X,Y) form only for dense files inside C12's AttrW.ok / arffRowOk with header and data lines handed over separately (no whole-file arffRead round trip in C12); sparse data lines not proved (C12 has the row-level arff_sparse_roundtrip_partial only, not sparseRows over a file)"}
 
     def corpus(self):
@@ -1654,6 +1716,18 @@ class C14(Property):
         cs_.append(dict(base, src="xy", label_type="m", rows=[[t(1), {"l": [cs("Washington, DC"), cs("x")]}], [t(2), {"l": [cs("Washington,DC")]}], [t(3), {"l": [cs('a", "b'), cs("( x"), cs("y )")]}]]))   # HammingReward
         cs_.append(dict(base, src="xy", label_type="c", no_model=True, rows=[[t(1), {"t": [cs("Washington, DC"), ci(1)]}], [t(2), {"t": [cs("Washington,DC"), ci(1)]}]]))   # BinaryReward with a tuple state
         cs_.append(dict(base, src="rows", sparse=False, label_col=1, label_type=None, take=None, rows=[[ci(1), cs("back\\nslash")], [ci(2), cs("it\\'s")], [ci(3), cs(", ")]]))
+        # (X,Y) handed over as one-shot iterables (generator / map / iterator) and a first read that is abandoned after one interaction:
+        # every later read is still one interaction per example (classification materialises the rows, regression streams them,
+        # multi-label; through SupervisedSimulation and Environments.from_supervised)
+        xs = [[t(1), cs("b")], [t(2), cs("a")], [t(3), cs("c")], [t(4), cs("a")]]
+        cs_.append(dict(base, src="xy", label_type="c", rows=xs, xy_as=["map", "gen"], abandon=1))
+        cs_.append(dict(base, src="xy", label_type=None, rows=xs, xy_as=["gen", "gen"]))
+        cs_.append(dict(base, src="xy", label_type=None, rows=[[t(1), ci(3)], [t(2), cf([5, 2])], [t(3), ci(-1)], [t(4), ci(7)]], xy_as=["iter", "list"], abandon=1))
+        cs_.append(dict(base, src="xy", label_type="r", kw=True, rows=[[t(1), ci(3)], [t(2), ci(4)], [t(3), ci(-1)]], xy_as=["list", "map"], abandon=2))
+        cs_.append(dict(base, src="xy", label_type="m", rows=[[t(1), {"l": [ci(1), ci(2)]}], [t(2), {"l": [ci(2)]}], [t(3), {"l": []}]], xy_as=["gen", "iter"], abandon=1))
+        cs_.append(dict(base, src="xy", via="env", label_type="c", rows=xs, xy_as=["iter", "iter"], abandon=1))
+        cs_.append(dict(base, src="xy", label_type=None, rows=[[t(1), cat("y", ["y", "x"])], [t(2), cat("x", ["y", "x"])]], xy_as=["map", "map"]))
+        cs_.append(dict(base, src="xy", label_type="c", rows=xs, abandon=1))
         for c in cs_:
             c.setdefault("take", None)
         return cs_
@@ -1758,6 +1832,12 @@ class C14(Property):
         if case.get("take") is not None:
             nall = len(case["rows"])
             tags.append("take:%s" % ("0" if case["take"] == 0 else "<n" if case["take"] < nall else "=n" if case["take"] == nall else ">n"))
+        if case.get("xy_as"):
+            tags.append("xy-handed-as:" + "/".join(case["xy_as"]))
+            if any(h in ONE_SHOT for h in case["xy_as"]):
+                tags.append("xy:one-shot-iterable")
+        if case.get("abandon"):
+            tags.append("history:abandoned-first-read")
         if case.get("edge"):
             tags.append("edge:" + case.get("edge_kind", "?"))
         if case.get("file"):
@@ -1808,7 +1888,7 @@ class C14(Property):
             ans = driver.ask(req)
             mobs = model_obs(ans, req["op"])
             model = mobs
-            tags.append("model-op:" + req["op"] + (":reservoir" if req.get("res") else ""))
+            tags.append("model-op:" + req["op"] + (":" + ans["shape"] if ans.get("shape") else "") + (":reservoir" if req.get("res") else ""))
             if a0 is not None and "ints" in mobs and mobs["ints"] and len(a0) >= 2:
                 tags.append("action-order:as-modelled" if a0 == [vkey(a) for a in mobs["ints"][0]["actions"]] else "action-order:OTHER-than-modelled")
             if mobs.get("err") == "OutOfModel":
@@ -1896,6 +1976,11 @@ class C14(Property):
             c = dict(case)
             c.pop("explicit_none")
             yield c
+        if case.get("abandon"):
+            yield dict(case, abandon=0)
+        if case.get("xy_as") and case["xy_as"] != ["list", "list"]:
+            yield dict(case, xy_as=["list", case["xy_as"][1]])
+            yield dict(case, xy_as=[case["xy_as"][0], "list"])
         if case["src"] == "xy":
             for k, (x, y) in enumerate(rows):
                 if x != {"i": 0}:
